@@ -17,6 +17,7 @@ import (
 	proto2 "github.com/openGemini/openGemini/lib/util/lifted/influx/meta/proto"
 	"github.com/openGemini/openGemini/lib/util/lifted/protobuf/proto"
 	"github.com/openGemini/openGemini/lib/util/lifted/vm/protoparser/influx"
+	"go.uber.org/zap"
 	"verifharness/internal/gen"
 )
 
@@ -63,7 +64,7 @@ func newWorld(cfg Cfg) *world {
 		w.rpi.MstVersions[mc.Mst] = meta.MeasurementVer{NameWithVersion: nameVer, Version: 0}
 		w.msts = append(w.msts, mi)
 	}
-	w.mc = &mclient{data: w.data, offline: map[int]bool{}, born: map[uint64]int{}, cur: -1}
+	w.mc = &mclient{data: w.data, offline: map[int]bool{}, born: map[uint64]int{}, resh: map[uint64]bool{}, cur: -1}
 	for _, o := range cfg.Offline {
 		w.mc.offline[o] = true
 	}
@@ -95,7 +96,7 @@ func (w *world) snapshotGroups() []Group {
 	var res []Group
 	for i := range w.rpi.ShardGroups {
 		sg := &w.rpi.ShardGroups[i]
-		g := Group{ID: sg.ID, Start: nsString(sg.StartTime), End: nsString(sg.EndTime), Deleted: sg.Deleted(), Born: w.mc.born[sg.ID]}
+		g := Group{ID: sg.ID, Start: nsString(sg.StartTime), End: nsString(sg.EndTime), Deleted: sg.Deleted(), Born: w.mc.born[sg.ID], Resh: w.mc.resh[sg.ID]}
 		if sg.Truncated() {
 			s := nsString(sg.TruncatedAt)
 			g.Trunc = &s
@@ -284,8 +285,51 @@ func hasAdjDup(tags [][2]string) bool {
 	return false
 }
 
-func runCase(n int, cfg Cfg, qm int, alter *Alter, cs condSpec, pts []Point, tmin, tmax int64, split bool, pre func(w *world)) Case {
+// reshard carries out Data.ReSharding on the newest shard group of the policy (what ts-meta does when the shards of a
+// range-sharded policy are out of balance): a new group [split+1, end of the newest group) with len(bounds)+1 key ranges
+func (w *world) reshard(rs *Reshard, pts []Point) error {
+	n := len(w.rpi.ShardGroups)
+	if n == 0 {
+		return nil
+	}
+	last := &w.rpi.ShardGroups[n-1]
+	st, en := last.StartTime.UnixNano(), last.EndTime.UnixNano()
+	if en-st < 4 || last.EndTime.After(time.Unix(0, 9223372036854775806)) {
+		return nil
+	}
+	split := st + (en-st)/2
+	switch rs.Mode {
+	case 1:
+		split = st
+	case 2:
+		if t := pts[rs.At-1].Time; t >= st && t < en-2 {
+			split = t
+		}
+	}
+	before := map[uint64]bool{}
+	for i := range w.rpi.ShardGroups {
+		before[w.rpi.ShardGroups[i].ID] = true
+	}
+	if err := w.data.ReSharding(&meta.ReShardingInfo{Database: dbName, Rp: rpName, ShardGroupID: last.ID, SplitTime: split, Bounds: rs.Bounds}); err != nil {
+		return err
+	}
+	rs.Split, rs.Done = split, true
+	for i := range w.rpi.ShardGroups {
+		if id := w.rpi.ShardGroups[i].ID; !before[id] {
+			w.mc.born[id] = rs.At
+			w.mc.resh[id] = true
+		}
+	}
+	return nil
+}
+
+func runCase(n int, cfg Cfg, qm int, alter *Alter, resh *Reshard, cs condSpec, pts []Point, tmin, tmax int64, split bool, pre func(w *world)) Case {
 	c := Case{N: n, Label: cs.label, CondText: cs.text, QM: qm, Alter: alter, TMin: tmin, TMax: tmax, Oracle: []string{}}
+	if resh != nil {
+		rs := *resh
+		rs.Split, rs.Done = 0, false
+		c.Reshard = &rs
+	}
 	w := newWorld(cfg)
 	if pre != nil {
 		pre(w)
@@ -342,6 +386,11 @@ func runCase(n int, cfg Cfg, qm int, alter *Alter, cs condSpec, pts []Point, tmi
 			ski := &meta.ShardKeyInfo{ShardKey: alter.SK, Type: cfg.Typ}
 			if err := w.data.AlterShardKey(dbName, rpName, cfg.Msts[alter.M].Mst, ski.Marshal()); err != nil {
 				c.Oracle = append(c.Oracle, "setup: AlterShardKey: "+err.Error())
+			}
+		}
+		if c.Reshard != nil && c.Reshard.At == start {
+			if err := w.reshard(c.Reshard, pts); err != nil {
+				c.Oracle = append(c.Oracle, "setup: ReSharding: "+err.Error())
 			}
 		}
 		rows := make([]influx.Row, end-start)
@@ -485,6 +534,64 @@ func runCase(n int, cfg Cfg, qm int, alter *Alter, cs condSpec, pts []Point, tmi
 		}
 	}
 
+	// ---- the same query with a series hint (SELECT /*+ full_series */ ..., /*+ specific_series */ ...)
+	hintConsulted := map[int]map[uint64]bool{}
+	for _, hint := range []int{1, 2} {
+		hr := HintRes{Hint: hint, Targets: []Target{}}
+		var ids []uint64
+		func() {
+			defer func() {
+				if x := recover(); x != nil {
+					hr.Err = fmt.Sprintf("panic: %v", x)
+				}
+			}()
+			var err error
+			ids, err = coordinator.VerifC11MapMstShardsHint(w.mc, dbName, rpName, cfg.Msts[qm].Mst, tminT, tmaxT, cond, hint)
+			if err != nil {
+				hr.Err = err.Error()
+			}
+		}()
+		set := map[uint64]bool{}
+		for _, id := range ids {
+			set[id] = true
+		}
+		hintConsulted[hint] = set
+		for i := range groups {
+			t := Target{GID: groups[i].ID, SIDs: []uint64{}}
+			for _, sh := range groups[i].Shards {
+				if set[sh.ID] {
+					t.SIDs = append(t.SIDs, sh.ID)
+				}
+			}
+			hr.Targets = append(hr.Targets, t)
+		}
+		if hr.Err != "" {
+			c.Oracle = append(c.Oracle, fmt.Sprintf("hintfail: hint %d: mapMstShards failed: %s", hint, hr.Err))
+		}
+		c.Hints = append(c.Hints, hr)
+	}
+	// a hinted query asserts that the condition names one series. For a measurement sharded by a key that is no restriction;
+	// without a shard key (the whole series key is hashed) only rows whose tag set is the condition's are promised
+	hintApplies := func(p *Point) bool {
+		if len(cfg.DBSK) > 0 || len(c.CondTags) != 1 {
+			return true
+		}
+		if ski := w.msts[qm].GetShardKey(p.GID); ski != nil && len(ski.ShardKey) > 0 {
+			return true
+		}
+		ct := append([][2]string{}, c.CondTags[0]...)
+		sort.SliceStable(ct, func(a, b int) bool { return ct[a][0] < ct[b][0] })
+		if len(ct) != len(p.Tags) {
+			return false
+		}
+		for i := range ct {
+			if ct[i] != p.Tags[i] {
+				return false
+			}
+		}
+		return true
+	}
+
 	// ---- rows against the query: the DIRECT ORACLE
 	for i := range pts {
 		p := &pts[i]
@@ -516,12 +623,48 @@ func runCase(n int, cfg Cfg, qm int, alter *Alter, cs condSpec, pts []Point, tmi
 		if p.M == qm && p.Err == "" && p.Sat && p.InTR && !consulted[p.SID] {
 			c.Oracle = append(c.Oracle, fmt.Sprintf("prune: point %d (%s t=%d, tags %v) satisfies the query but its shard %d of group %d is not consulted", i, mcf.Mst, p.Time, p.Tags, p.SID, p.GID))
 		}
+		if p.M == qm && p.Err == "" && p.Sat && p.InTR && hintApplies(p) {
+			for _, hr := range c.Hints {
+				if hr.Err == "" && !hintConsulted[hr.Hint][p.SID] {
+					c.Oracle = append(c.Oracle, fmt.Sprintf("hintprune: hint %d point %d (%s t=%d, tags %v) satisfies the hinted query but its shard %d of group %d is not consulted", hr.Hint, i, mcf.Mst, p.Time, p.Tags, p.SID, p.GID))
+				}
+			}
+		}
 	}
 	c.Points = pts
 	c.Groups = w.snapshotGroups()
 	w.snapshotMsts(&cfg)
 	c.Cfg = cfg
 	return c
+}
+
+// fullKey is Row.ShardKey of a row of the measurement: the name with version, then ",k=v" for every shard-key tag (every
+// tag when the measurement has no shard key); false when the row lacks a shard-key tag or repeats a key
+func fullKey(mver string, sk []string, tags [][2]string) (string, bool) {
+	if hasAdjDup(tags) {
+		return "", false
+	}
+	b := mver
+	if len(sk) == 0 {
+		for _, t := range tags {
+			b += "," + t[0] + "=" + t[1]
+		}
+		return b, true
+	}
+	for _, k := range sk {
+		found := false
+		for _, t := range tags {
+			if t[0] == k {
+				b += "," + k + "=" + t[1]
+				found = true
+				break
+			}
+		}
+		if !found {
+			return "", false
+		}
+	}
+	return b, true
 }
 
 func skUnionOf(cfg *Cfg, mc *MstCfg, alter *Alter, mi int) map[string]bool {
@@ -566,10 +709,30 @@ func genCase(r *gen.Rand, n int) Case {
 	g := &condGen{r: r, sk: qsk}
 	g.keys = append(append([]string{}, cfg.Msts[qm].TagKeys...), "nokey")
 	var cs condSpec
+	var fullSeries [][2]string
 	for tries := 0; ; tries++ {
 		if r.Chance(1, 25) {
 			cs = condSpec{label: "parser"}
 			break
+		}
+		if r.Chance(1, 7) {
+			// the shape hinted queries are meant for: every tag of one series bound by equality (sometimes one tag short)
+			fullSeries = genPointTags(r, &cfg.Msts[qm], skUnionOf(&cfg, &cfg.Msts[qm], alter, qm), nil)
+			if len(fullSeries) > 0 && !hasAdjDup(fullSeries) {
+				var parts []string
+				for i, t := range fullSeries {
+					if i > 0 && len(fullSeries) > 2 && r.Chance(1, 8) {
+						continue
+					}
+					parts = append(parts, `"`+t[0]+`" = `+quote(t[1]))
+				}
+				txt := strings.Join(parts, " AND ")
+				if e, err := influxql.ParseExpr(txt); err == nil {
+					cs = condSpec{label: "parser", expr: e, text: txt}
+					break
+				}
+			}
+			fullSeries = nil
 		}
 		if len(cfg.DBSK) > 0 && r.Chance(1, 2) {
 			// two shard-key definitions: bind every tag of the measurement's own key and/or of the database's key by equality
@@ -645,6 +808,12 @@ func genCase(r *gen.Rand, n int) Case {
 			p.M, p.Tags = pts[j].M, pts[j].Tags
 		}
 	}
+	if fullSeries != nil { // the series the condition names is written, more than once
+		for k := 0; k < 3; k++ {
+			j := r.Intn(np)
+			pts[j].M, pts[j].Tags = qm, fullSeries
+		}
+	}
 	if alter != nil {
 		pts[alter.At].NewBatch = true
 	}
@@ -657,16 +826,25 @@ func genCase(r *gen.Rand, n int) Case {
 		tmin, tmax = a, b
 	}
 	var pre func(w *world)
+	var resh *Reshard
 	if cfg.Typ == meta.RANGE {
-		// range sharding: a first group with key bounds, as left behind by resharding
+		// range sharding: key bounds, either in a first hand-built group (the state resharding leaves behind) or produced by
+		// the real Data.ReSharding between two batches; split points are mostly shard keys of series of this very case
 		mc := &cfg.Msts[0]
 		nb := r.Range(0, 4)
 		if nb > cfg.PtNum-1 { // groups created later give one owner partition to each of the first PtNum shards only
 			nb = cfg.PtNum - 1
 		}
+		real := nb > 0 && np > 2 && r.Chance(1, 2)
 		var bounds []string
 		mver := influx.GetNameWithVersion(mc.Mst, 0)
 		for i := 0; i < nb; i++ {
+			if real && r.Chance(3, 4) {
+				if k, ok := fullKey(mver, mc.SK, pts[r.Intn(len(pts))].Tags); ok {
+					bounds = append(bounds, k)
+					continue
+				}
+			}
 			b := mver
 			if len(mc.SK) > 0 && r.Chance(4, 5) {
 				b += "," + mc.SK[0] + "=" + gen.Pick(r, valPool[:5])
@@ -689,7 +867,12 @@ func genCase(r *gen.Rand, n int) Case {
 			}
 		}
 		st := alignedStart(times[0], cfg.Dur)
-		pre = func(w *world) { w.addRangeGroup(time.Unix(0, st).UTC(), ub) }
+		if real && len(ub) > 0 {
+			resh = &Reshard{At: r.Range(1, np-1), Bounds: ub, Mode: r.Intn(3)}
+			pts[resh.At].NewBatch = true
+		} else {
+			pre = func(w *world) { w.addRangeGroup(time.Unix(0, st).UTC(), ub) }
+		}
 	} else if r.Chance(1, 8) {
 		// a deleted or truncated group left in the catalogue
 		st := alignedStart(times[0], cfg.Dur)
@@ -706,7 +889,7 @@ func genCase(r *gen.Rand, n int) Case {
 			}
 		}
 	}
-	return runCase(n, cfg, qm, alter, cs, pts, tmin, tmax, r.Chance(1, 3), pre)
+	return runCase(n, cfg, qm, alter, resh, cs, pts, tmin, tmax, r.Chance(1, 3), pre)
 }
 
 // hand-written cases, always run first: the design's witnesses and the batch / shard-key-history scenarios
@@ -721,7 +904,7 @@ func witnessCases() []Case {
 		for i, ts := range tagsets {
 			pts = append(pts, Point{Tags: ts, Time: base + int64(i)})
 		}
-		res = append(res, runCase(n, cfg, 0, nil, condSpec{label: label, expr: e, text: text}, pts, full[0], full[1], false, nil))
+		res = append(res, runCase(n, cfg, 0, nil, nil, condSpec{label: label, expr: e, text: text}, pts, full[0], full[1], false, nil))
 	}
 	dh := []string{"dc", "host"}
 	// W1: host='a' OR usage > 1, shard key host, 8 shards
@@ -784,13 +967,13 @@ func witnessCases() []Case {
 	for k, reg := range []string{"r10", "r8"} {
 		txt := `region = '` + reg + `'`
 		e, _ := influxql.ParseExpr(txt)
-		res = append(res, runCase(-5-k, two, 1, nil, condSpec{label: "parser", expr: e, text: txt}, mixed(-1), full[0], full[1], false, nil))
+		res = append(res, runCase(-5-k, two, 1, nil, nil, condSpec{label: "parser", expr: e, text: txt}, mixed(-1), full[0], full[1], false, nil))
 	}
 	// W6: cpu row, a mem row dropped by the schema check, then mem rows: all in one batch and one group
 	for k, reg := range []string{"r3", "r10", "r1"} {
 		txt := `region = '` + reg + `'`
 		e, _ := influxql.ParseExpr(txt)
-		res = append(res, runCase(-7-k, two, 1, nil, condSpec{label: "parser", expr: e, text: txt}, mixed(1), full[0], full[1], false, nil))
+		res = append(res, runCase(-7-k, two, 1, nil, nil, condSpec{label: "parser", expr: e, text: txt}, mixed(1), full[0], full[1], false, nil))
 	}
 	// W7: ALTER SHARDKEY host -> region between two batches; the query spans the old and the new group
 	for k, hv := range []string{"h1", "h2", "h3"} {
@@ -804,19 +987,37 @@ func witnessCases() []Case {
 		}
 		txt := `host = '` + hv + `'`
 		e, _ := influxql.ParseExpr(txt)
-		res = append(res, runCase(-10-k, cfg, 0, &Alter{At: 6, M: 0, SK: []string{"region"}}, condSpec{label: "parser", expr: e, text: txt}, pts, full[0], full[1], false, nil))
+		res = append(res, runCase(-10-k, cfg, 0, &Alter{At: 6, M: 0, SK: []string{"region"}}, nil, condSpec{label: "parser", expr: e, text: txt}, pts, full[0], full[1], false, nil))
 	}
 	// W8: database WITH SHARDKEY region; cpu WITH SHARDKEY host inside it, mem without a key of its own: every row is placed
 	// by region. Queries binding the measurement's key, the database's key, both.
 	for k, txt := range []string{`host = 'h2'`, `region = 'r1'`, `host = 'h4' AND region = 'r15'`, `host = 'h6'`, `host = 'h3'`} {
 		cfg := Cfg{Msts: []MstCfg{one("cpu", hr, []string{"host"}), one("mem", hr, nil)}, DBSK: []string{"region"}, Typ: meta.HASH, Dur: h, PtNum: 8}
 		e, _ := influxql.ParseExpr(txt)
-		res = append(res, runCase(-13-k, cfg, k%2, nil, condSpec{label: "parser", expr: e, text: txt}, mixed(-1), full[0], full[1], false, nil))
+		res = append(res, runCase(-13-k, cfg, k%2, nil, nil, condSpec{label: "parser", expr: e, text: txt}, mixed(-1), full[0], full[1], false, nil))
+	}
+	// W9: range sharding, one shard until the real Data.ReSharding splits the newest group at the shard keys of host=h2 and
+	// host=h5; the same series are written again after the split (into the new group, whose ranges start AT those keys)
+	for k, hv := range []string{"h2", "h5", "h3", "h0", "h7"} {
+		cfg := Cfg{Msts: []MstCfg{one("cpu", hr, []string{"host"})}, Typ: meta.RANGE, Dur: h, PtNum: 4}
+		var pts []Point
+		for i := 0; i < 8; i++ {
+			pts = append(pts, Point{Time: base + int64(i+1)*60e9, Tags: [][2]string{{"host", fmt.Sprintf("h%d", i)}, {"region", fmt.Sprintf("r%d", i%3)}}})
+		}
+		for i := 0; i < 8; i++ {
+			pts = append(pts, Point{Time: base + h/2 + int64(i+1)*60e9, NewBatch: i == 0, Tags: [][2]string{{"host", fmt.Sprintf("h%d", i)}, {"region", fmt.Sprintf("r%d", i%3)}}})
+		}
+		mver := influx.GetNameWithVersion("cpu", 0)
+		txt := `host = '` + hv + `'`
+		e, _ := influxql.ParseExpr(txt)
+		res = append(res, runCase(-18-k, cfg, 0, nil, &Reshard{At: 8, Bounds: []string{mver + ",host=h2", mver + ",host=h5"}, Mode: 0},
+			condSpec{label: "parser", expr: e, text: txt}, pts, full[0], full[1], false, nil))
 	}
 	return res
 }
 
 func main() {
+	meta.DataLogger = zap.NewNop() // Data.ReSharding logs through the package logger, which only ts-meta sets up
 	n := 400
 	if gen.Tier() == "thorough" {
 		n = 8000
@@ -902,7 +1103,7 @@ func replay(path string) {
 			}
 		}
 	}
-	res := runCase(c.N, cfg, c.QM, c.Alter, condSpec{label: c.Label, expr: e, text: c.CondText}, pts, c.TMin, c.TMax, false, pre)
+	res := runCase(c.N, cfg, c.QM, c.Alter, c.Reshard, condSpec{label: c.Label, expr: e, text: c.CondText}, pts, c.TMin, c.TMax, false, pre)
 	gen.Emit(res)
 }
 
